@@ -270,3 +270,36 @@ pub fn seed_from_u64(x: u64) -> [u8; 16] {
     let mut r = Rng::new(x);
     r.seed16()
 }
+
+/// Typed (semantic) equality: compares decoded elements, so unused padding bits of packed bit
+/// arrays do not matter. Returns false on shape mismatch.
+pub fn typed_eq(t: &Type, a: &Value, b: &Value) -> bool {
+    if is_leaf_type(t) {
+        match (as_bytes(a), as_bytes(b)) {
+            (Some(x), Some(y)) => {
+                let st = t.get_scalar_type();
+                let need = if st == BIT { (num_elems(t) + 7) / 8 } else { num_elems(t) * (st_bits(st) as usize / 8) };
+                if x.len() < need || y.len() < need {
+                    return false;
+                }
+                dec(a, t) == dec(b, t)
+            }
+            _ => false,
+        }
+    } else {
+        match (as_vec(a), as_vec(b)) {
+            (Some(x), Some(y)) => {
+                let cts = children_types(t);
+                x.len() == cts.len() && y.len() == cts.len() && cts.iter().enumerate().all(|(i, ct)| typed_eq(ct, &x[i], &y[i]))
+            }
+            _ => false,
+        }
+    }
+}
+
+pub fn raw_bytes_hex(v: &Value) -> String {
+    match as_bytes(v) {
+        Some(b) => b.iter().map(|x| format!("{:02x}", x)).collect::<Vec<_>>().join(""),
+        None => as_vec(v).map(|vs| format!("[{}]", vs.iter().map(raw_bytes_hex).collect::<Vec<_>>().join(","))).unwrap_or_default(),
+    }
+}
